@@ -67,6 +67,7 @@ NODE_NAMES = [
     ['10', '9', '8', '2', '100', '1', '11', '0'],             # numeric traps ('10' < '9'), '0' is not node 0
     ['gnd', 'B', 'a', 'C', 'Ω', 'é', '_', 'A'],               # mixed case / non-ASCII
     ['n3', 'n1', 'n4', 'n0', 'n2', 'n7', 'n6', 'n5'],         # permuted
+    ['1', '10', '100', '21', '210', '0', '2', '01'],          # labels that are substrings of one another ('1' in '10', '100', '21', ...)
 ]
 # element id prefix per role; role = 'I' (current source), 'L' (inductor), 'V' (voltage source), 'P' (passive), 'C'
 # six relative orders of I / L / V prefixes, interleaved with passive ones
@@ -77,6 +78,7 @@ ID_PREFIX = [
     {'I': 'k2', 'L': 'k3', 'V': 'k1', 'P': 'k0', 'C': 'k4'},  # V < I < L
     {'I': 'x', 'L': 'X', 'V': 'xx', 'P': 'Xx', 'C': 'xX'},    # L < I < V  with case traps
     {'I': 'S9', 'L': 'S10', 'V': 'S1', 'P': 'S', 'C': 'S2'},  # numeric traps: 'S1' < 'S10' < 'S9'
+    {'I': 'E', 'L': 'E', 'V': 'E', 'P': 'E', 'C': 'E', 'nested': True},   # ids that are substrings of one another: E1, E11, E111, ...
 ]
 N_SCHEMES = len(NODE_NAMES) * len(ID_PREFIX)
 
@@ -90,9 +92,12 @@ class Naming:
 
     def eid(self, i: int, role: str = 'P') -> str:
         # ids within one scheme sort by (prefix, index) in an order unrelated to listing order
-        pref = ID_PREFIX[(self.scheme // len(NODE_NAMES)) % len(ID_PREFIX)][role]
+        table = ID_PREFIX[(self.scheme // len(NODE_NAMES)) % len(ID_PREFIX)]
+        pref = table[role]
         i = int(i)
         idx = [5, 3, 8, 1, 9, 2, 7, 4, 6, 0, 11, 10][i] if i < 12 else 100 + i
+        if table.get('nested'):
+            return pref + '1' * (idx + 1 if i < 12 else i + 1)
         return f'{pref}_{idx}'
 
 
